@@ -29,6 +29,9 @@ class P(vlib.Prop):
             "but checked by the direct oracle: 8 concurrent producers (real 1-5 ms timers); real 20 ms timers under generated scripts of idle gaps, small "
             "and big arrivals, optionally two metadata groups: after every arrival everything accepted must reach the sink by "
             "the timeout alone.  "
+            "Shutdown right behind the last Consume: Start, 1-6 Consume calls (mostly first "
+            "payloads of new metadata groups) and Shutdown in one goroutine without any wait, half of the runs on a single P; the "
+            "sink snapshot taken the moment Shutdown returns is compared with the model and must conserve everything accepted.  "
             "A split case is non-trivial when it cuts, a run when it exports >= 2 batches, a validate case when rejected; "
             "distinct = distinct case terms.")
     trusted_base = [
@@ -43,4 +46,5 @@ class P(vlib.Prop):
         "the downstream consumer accepts every export (an error is only logged by the processor and the batch is dropped, by design)",
         "bp_timeout: time is logical; a timer fires exactly at its deadline (timely schedules); wall-clock accuracy of time.Timer and goroutine scheduling latency are outside",
         "Consume calls concurrent with or after Shutdown are outside the property ('accepted before shutdown began')",
+        "Shutdown returns only after every shard created by an already returned Consume has returned (WaitGroup registration inside consume) - the hypothesis 'all shards done' of bp_conserves; validated by the immediate-shutdown runs",
     ]
